@@ -151,7 +151,7 @@ def rows():
                          (3, -1, None, R("ValueError"))):
         add("pow", "__pow__", a, (e, m), exp)
         add("pow", "inplace_pow", a, (e, m), exp)
-    for a in (0, 1, 2, 3, 5, 7, 10, 1001, -1, -3, 2 ** 70 + 3):
+    for a in (0, 1, 2, 3, 5, 7, 10, 1001, -1, -3, 2 ** 70 + 3, -10, -22, -1000, -(2 ** 70 + 3), -(W + 14)):
         for n in (1, 3, 5, 7, 9, 15, 21, 1001, 2 ** 61 - 1, W + 13):
             add("jacobi", "jacobi_symbol", 0, (a, n), ("int", jacobi(a, n)), True)
     for n in (0, -3, 4):
